@@ -30,6 +30,9 @@ fn attacks(c: usize, u: u32, tag: &str) {
     assert!(all.test(sq(t)) == (attacked_ref(&bb, c, t) && !own), "attacked set = union of the men's attack sets minus own squares");
     let pawn = board.colored_pawn_attacks(col);
     assert!(pawn.test(sq(t)) == (pawn_attacked_ref(&bb, c, t) && !own), "pawn-only attacked set likewise");
+    // the same question on a board that has not been asked anything yet (cold cache)
+    let cold = to_board(&bb).colored_pawn_attacks(col);
+    assert!(cold == pawn, "pawn-only attacked set does not depend on what was asked before");
     // the other colour is in check exactly when its king stands on an attacked square
     let victim = 1 - c;
     let ksq = bb[victim][K].trailing_zeros() as u8;
